@@ -417,7 +417,8 @@ fn resync_case(x: &[u8], st: Option<&mut Rs>) -> Vec<(&'static str, String, Vec<
     for (prefix, errs) in [(&b"Z;"[..], 1usize), (b"@;", 1), (b"B 300;", 1)] {
         let mut z = prefix.to_vec();
         z.extend_from_slice(&y);
-        // B 300 is an execution-time fault: the units behind it run ("all or none": here all)
+        // B 300 is an execution-time fault: the units of the same message behind it run, or none
+        // of them does (both are allowed); behind a parse-level fault the library documents "none"
         let exec_fault = prefix == b"B 300;";
         let mut engines: Vec<(&'static str, Obs)> = vec![("run", run_obs(&z, Pattern::NONE).1)];
         if z.len() <= 64 {
@@ -427,11 +428,12 @@ fn resync_case(x: &[u8], st: Option<&mut Rs>) -> Vec<(&'static str, String, Vec<
         for (engine, obs) in engines {
             let expected_calls: Vec<Vec<u8>> = if exec_fault { base.calls.clone() } else { rest.calls.clone() };
             let expected_out: Vec<u8> = if exec_fault { base.out.clone() } else { rest.out.clone() };
-            if obs.errs.len() != errs || obs.calls != expected_calls || obs.out != expected_out {
+            let none_ran = exec_fault && obs.errs.len() == errs && obs.calls == rest.calls && obs.out == rest.out;
+            if !none_ran && (obs.errs.len() != errs || obs.calls != expected_calls || obs.out != expected_out) {
                 found.push((
                     engine,
                     format!(
-                        "{engine}(\"{}\"): observed {} ; the parser ends the first message behind byte {} of \"{}\", so one error and calls {:?} output \"{}\" are specified",
+                        "{engine}(\"{}\"): observed {} ; the parser ends the first message behind byte {} of \"{}\", so one error and calls {:?} output \"{}\" are specified (behind an execution-time fault also without the units of the first message)",
                         show(&z),
                         obs.show(),
                         p,
